@@ -124,6 +124,9 @@ type verifE1Party struct {
 	db       *channeldb.DB
 	backend  kvdb.Backend
 	dbDir    string
+	// reopenKind != 0: the next reload of this party is a process restart
+	// that also closes and reopens its database backend (sqlite unit).
+	reopenKind int
 	idPub    *btcec.PublicKey
 	root     chainhash.Hash // shachain root of the revocation producer
 	released []verifE1Released
@@ -294,10 +297,14 @@ func verifE1Keys(seedByte byte, base []byte) []*btcec.PrivateKey {
 	return keys
 }
 
-// verifE1DB wraps the bolt backend of one party: after every committed write
+// verifE1DB wraps the kvdb backend (bbolt, or the sqlite kvdb backend when
+// verifUseSqlite is set) of one party: after every committed write
 // transaction hook (if set) runs, i.e. at every instant at which a crash
 // would leave a different database behind (C02 crash points between the
-// durable writes of ONE handler).
+// durable writes of ONE handler). Both backends return nil from Update exactly
+// once per committed transaction (sqlbase retries serialization failures
+// inside Update), and channeldb's channel-state writes all go through
+// kvdb.Update / kvdb.Batch (which falls back to Update on this wrapper).
 type verifE1DB struct {
 	kvdb.Backend
 	hook    func()
@@ -318,15 +325,42 @@ func (d *verifE1DB) Update(f func(tx walletdb.ReadWriteTx) error, reset func()) 
 	return err
 }
 
+// Second kvdb backend family (SQL: kvdb/sqlbase + kvdb/sqlite). The functions
+// are assigned by e1_sqlite_test.go, which only exists in a kvdb_sqlite build
+// and is only listed by the units that need it; every other unit leaves them
+// nil and verifUseSqlite false.
+var (
+	verifUseSqlite bool
+	// verifOpenSqlite opens (creating if needed) the sqlite kvdb backend
+	// whose database file lives in dir.
+	verifOpenSqlite func(dir string) (kvdb.Backend, error)
+	// verifSqliteImage writes into dstDir the database party i's process
+	// would leave behind if it stopped right now.
+	verifSqliteImage func(e *verifE1, i int, dstDir string) error
+	// verifSqliteReopen restarts party i's backend (p.reopenKind).
+	verifSqliteReopen func(e *verifE1, i int) error
+)
+
 func verifOpenDB(dir string, dbMods ...channeldb.OptionModifier) (*channeldb.DB, kvdb.Backend, error) {
-	bolt, err := kvdb.GetBoltBackend(&kvdb.BoltBackendConfig{
-		DBPath:            dir,
-		DBFileName:        "channel.db",
-		NoFreelistSync:    true,
-		AutoCompact:       false,
-		AutoCompactMinAge: kvdb.DefaultBoltAutoCompactMinAge,
-		DBTimeout:         kvdb.DefaultDBTimeout,
-	})
+	var (
+		bolt kvdb.Backend
+		err  error
+	)
+	if verifUseSqlite {
+		if !kvdb.SqliteBackend || verifOpenSqlite == nil {
+			return nil, nil, errors.New("sqlite kvdb backend requested but not compiled in (tag kvdb_sqlite)")
+		}
+		bolt, err = verifOpenSqlite(dir)
+	} else {
+		bolt, err = kvdb.GetBoltBackend(&kvdb.BoltBackendConfig{
+			DBPath:            dir,
+			DBFileName:        "channel.db",
+			NoFreelistSync:    true,
+			AutoCompact:       false,
+			AutoCompactMinAge: kvdb.DefaultBoltAutoCompactMinAge,
+			DBTimeout:         kvdb.DefaultDBTimeout,
+		})
+	}
 	if err != nil {
 		return nil, nil, err
 	}
@@ -1202,6 +1236,11 @@ func (e *verifE1) recordHeld(i int) {
 
 func (e *verifE1) reload(i int) bool {
 	p := e.parties[i]
+	if p.reopenKind != 0 && verifSqliteReopen != nil {
+		if err := verifSqliteReopen(e, i); err != nil {
+			e.vc.t.Fatalf("backend restart of %s: %v", p.Name, err)
+		}
+	}
 	chans, err := p.db.ChannelStateDB().FetchOpenChannels(p.idPub)
 	if err != nil || len(chans) != 1 {
 		e.viol("reload_error", "FetchOpenChannels",
